@@ -1472,7 +1472,9 @@ func (g *Gen) genBasketCombo() *eng.Tx {
 		}
 	}
 	take := func(d, amt string) func() sdk.Msg {
-		return func() sdk.Msg { return &baskettypes.MsgTake{Owner: owner, BasketDenom: d, Amount: amt, RetireOnTake: false} }
+		return func() sdk.Msg {
+			return &baskettypes.MsgTake{Owner: owner, BasketDenom: d, Amount: amt, RetireOnTake: false}
+		}
 	}
 	g.script = append(g.script,
 		one("basket_combo/other", func() sdk.Msg { return create(n2) }),
